@@ -166,8 +166,15 @@ func (fc *FnCtx) trModel(st *State, call *ast.CallExpr, fn *types.Func, recvExpr
 		return []Val{c, e}, true
 	case "os.WriteFile":
 		vs := args()
+		before := fc.fsWrites(st)
 		fc.noteWrite(st, &vs[0], &vs[1])
 		e := fc.freshVal(st, "werr", SInt, nil)
+		if vs[0].S == SStr && vs[1].S == SStr {
+			// a successful write is what a later read of that path returns
+			after := fc.fsWrites(st)
+			st.addAssume("(=> (= " + e.T + " 0) (= (fsread " + vs[0].T + " " + after.T + ") " + vs[1].T + "))")
+			_ = before
+		}
 		return []Val{e}, true
 	case "os.Exit":
 		args()
